@@ -101,8 +101,9 @@ def guardCheck (g : Guard) (v : JVal) : Except Err Unit :=
 /-- `_set_fields(forgiving, **kvs)` on instance `x`.  `valid k v` stands for the `VALIDATORS` /
 `LAMBDA_VALIDATORS` of `Labels` (owned by C16; `fun _ _ => true` for the other classes).
 A key naming a method or class attribute passes `__getattribute__` and is then *set as an instance
-attribute*; that state is outside this model (`"unmodelled"`), the harness never sends such keys to
-the model and the oracle reports them on the implementation. -/
+attribute*; that state is outside this model (`"unmodelled"`).  Since /repo f7874ac `from_json` filters
+unknown keys before calling the setter, so only the constructor and `update` (validation, C16) can reach
+that branch; the harness never sends such keys to the model. -/
 def setFields (c : ClassSpec) (valid : String → JVal → Bool) (forgiving : Bool) :
     List (String × JVal) → Fields → Except Err Fields
   | [], x => .ok x
